@@ -449,6 +449,29 @@ theorem fits_file_structure (q : Qty) (w depth : Nat) (rs : List Rng) (hd : dept
     simp only [decodeWords_encodeWords]
   · rw [← hwl]; exact h2
 
+/-- **With the optional `MOCID` / `MOCTYPE` cards** (values of at most 68 characters: what fits a card): the file is
+    still made of 2880-byte blocks, declares the row width and count of the data written, and its data bytes decode
+    to exactly the ranges. -/
+theorem fits_file_with_id (q : Qty) (w depth : Nat) (id ty : Option (List Char)) (rs : List Rng) (hd : depth ≤ 255)
+    (hid : ∀ v, id = some v → v.length ≤ 68) (hty : ∀ v, ty = some v → v.length ≤ 68)
+    (hw : w / 8 < 10 ^ 20) (hn : rs.length <<< 1 < 10 ^ 20)
+    (hfit : ∀ r ∈ rs, r.1 < 256 ^ (w / 8) ∧ r.2 < 256 ^ (w / 8)) :
+    (rangeFileWith q w depth id ty rs).length % 2880 = 0 ∧
+    readStructure (rangeFileWith q w depth id ty rs) = some (w / 8, rs.length <<< 1, rs) := by
+  have hwl : (encodeWords rs).length = rs.length <<< 1 := by
+    rw [encodeWords_length, Nat.shiftLeft_eq, Nat.pow_one, Nat.mul_comm]
+  have h80 := mocCardsWith_80 q w depth id ty hd hid hty
+  have hc : (mocCardsWith q w depth id ty).length ≤ 27 := by have := mocCardsWith_count q w depth id ty; omega
+  refine ⟨fileOf_blocks w _ _ h80 hc hw (by rw [hwl]; exact hn), ?_⟩
+  obtain ⟨h1, _⟩ := fileOf_words w (mocCardsWith q w depth id ty) (encodeWords rs) h80 hc hw (by rw [hwl]; exact hn) (by
+      intro x hx
+      obtain ⟨r, hr, h | h⟩ := mem_encodeWords rs x hx
+      · rw [h]; exact (hfit r hr).1
+      · rw [h]; exact (hfit r hr).2)
+  unfold readStructure rangeFileWith
+  rw [h1, hwl]
+  simp only [decodeWords_encodeWords]
+
 /-- **The NUNIQ file**: 2880-byte blocks, `NAXIS2` = the number of cells, and the NUNIQ numbers are
     read back from the `NAXIS1 × NAXIS2` data bytes, for every list of numbers that fit the index type. -/
 theorem fits_nuniq_file (w depth : Nat) (uniqs : List Nat) (hd : depth ≤ 255)
